@@ -161,7 +161,7 @@ impl C16 {
 
 impl Monitor for C16 {
     fn total_cases(&self) -> u64 {
-        self.tier.pick(40_000, 4_000_000)
+        self.tier.pick(600_000, 20_000_000)
     }
 
     fn run_case(&mut self, k: u64, rng: &mut Rng, col: &mut Collector) {
